@@ -582,6 +582,16 @@ class Array:
             startindex = 0
         if endindex is None:
             endindex = self.shape[0]
+        # NumPy integers of a narrow type (np.int8(100) ...) wrap around or
+        # overflow in the arithmetic below: calculate with Python ints
+        if isinstance(chunklen, np.integer):
+            chunklen = int(chunklen)
+        if isinstance(stepsize, np.integer):
+            stepsize = int(stepsize)
+        if isinstance(startindex, np.integer):
+            startindex = int(startindex)
+        if isinstance(endindex, np.integer):
+            endindex = int(endindex)
         if startindex < 0:
             raise ValueError("startindex should not be negative")
         if endindex > self.shape[0]:
@@ -813,6 +823,8 @@ def _fillgenerator(shape, dtype='float64', fill=0., fillfunc=None,
     if chunklen is None:
         chunklen = max((80 * 1024 ** 2) // (product(shape[1:]) *
                                             dtype.itemsize), 1)
+    if isinstance(chunklen, np.integer):  # narrow NumPy integers wrap around
+        chunklen = int(chunklen)
     nchunks, restlen = divmod(shape[0], chunklen)
     chunkshape = [chunklen] + list(shape[1:])
     chunk = np.empty(chunkshape, dtype=dtype)
@@ -836,6 +848,8 @@ def _archunkgenerator(array, dtype=None, chunklen=None):
         else:
             chunklen = 1024 ** 2
     chunklen = max(chunklen, 1)
+    if isinstance(chunklen, np.integer):  # narrow NumPy integers wrap around
+        chunklen = int(chunklen)
     if hasattr(array, '__next__'):  # is already an iterator, ignore chunklen
         for chunk in array:
             yield np.asarray(chunk, dtype=dtype)
